@@ -16,6 +16,8 @@ def cause(k):
     a, b = pair.split("/")
     ops = {a, b}
     w = []
+    if kind == "panic" and what == "nil-map-write":
+        return "DNSHandler.Close sets DNSTable/mdnsCache to nil (dns.go:55-58); a ProcessDNS/ProcessMDNS of the packet loop that runs afterwards assigns into the nil map and panics (dns.go:141, mdns.go:307)"
     if kind == "panic":
         if what == "send-on-closed-channel":
             return "Close closes the notification channel / a handler close channel (session.go:240) while %s may still send on it (sendNotification, notification.go:50: len<cap test then send, no ordering with Close): send on closed channel panics" % (a if b.endswith("Close") else b)
@@ -40,6 +42,21 @@ def cause(k):
         w.append("Session.closed is read and written by Close without synchronisation (session.go:235-238)")
     if f in ("Host.Names", "MACEntry.Manufacturer", "Host.Manufacturer", "Host.HuntStage") and not w:
         w.append("the record is initialised/updated under the session write lock only (hosttable.go:140-147) and read under the row lock only (toNotification, notification.go:41)")
+    hc = {
+     "arp.closed": "arp Handler.closed is written by Close (arp.go:66) and read by ProcessPacket and spoofLoop with no lock",
+     "arp.huntList": "IsHunting -> findHuntByIP ranges over the hunt-list map with no lock (spoof.go:11-22) while StartHunt/StopHunt write it under arpMutex (can end in the runtime's fatal 'concurrent map iteration and map write')",
+     "icmp6.closed": "Handler6.closed is written by Close with no lock (icmp6.go:71) and read by spoofLoop under the handler lock / by the RA branch of ProcessPacket with no lock",
+     "icmp6.closeChan": "the RA branch of ProcessPacket replaces h.closeChan with no lock (icmp6.go:180-184) while spoofLoop's select and Close read it with no lock",
+     "icmp6.huntList": "the RA branch of ProcessPacket calls h.huntList.Len() with no lock (icmp6.go:180) while StartHunt/StopHunt modify the list under the handler lock",
+     "icmp6.LANRouters": "Handler6.PrintTable ranges over LANRouters and reads router fields with no lock (icmp6.go:43-57) while the RA branch updates them under the handler lock",
+     "dhcp4.closed": "dhcp4 Handler.closed is read and written by Close with no lock (dhcp4.go:166-169)",
+     "dns.table": "DNSHandler.Close stores nil into DNSTable with no lock (dns.go:56) while ProcessDNS/DNSFind use it under the handler lock",
+     "dns.mdnsCache": "DNSHandler.Close stores nil into mdnsCache with no lock (dns.go:57) while ProcessMDNS uses it under the handler lock",
+    }
+    if f in hc:
+        w = [hc[f]]
+    if kind == "panic" and what == "nil-map-write":
+        return "DNSHandler.Close sets DNSTable/mdnsCache to nil (dns.go:55-58); a ProcessDNS/ProcessMDNS of the packet loop that runs afterwards assigns into the nil map and panics (dns.go:141, mdns.go:307)"
     if not w:
         w.append("conflicting accesses with no common lock")
     return "; ".join(dict.fromkeys(w))
